@@ -154,3 +154,73 @@ PROPS = {
         level_text=LT, level_note=LN, assumptions=[],
     ),
 }
+
+# ---- per-property statement of what the claimed level rests on (replaces the generic LT/LN) ----
+_COMMON_NOTE = (" Trusted: Coq 8.16.1 kernel and vm_compute (no axioms, Print Assumptions after every theorem, hygiene grep on every run); the hand-written "
+                "Gallina model, tied to /repo only by this run's correspondence; the Go harness, its oracles and the os package as reference; see TRUSTED_BASE.md. "
+                "Open findings are listed in known_findings.json and printed as KNOWN-FINDING.")
+LEVELS = {
+    "C01": ("Proved (all well-formed fault-free states, all arguments): exact success condition, resulting store and error class of Stat, Mkdir, Remove, Chmod, Chtimes of the key-value FS model; every state reachable by namespace histories is such a state (C03). "
+            "Checked every run: the model agrees with the implementation on success/failure, data and whole tree after every step of generated histories, and the implementation agrees with the Go os package on the same histories.",
+            "Not proved: specifications of OpenFile flag combinations, WriteFullFile, MkdirAll, RemoveAll, Rename (model=code and code=os comparisons only). Refuted and listed as known finding: ReadFile of a directory."),
+    "C02": ("Proved over the handle model (all states, offsets, lengths): Read/ReadAt return the current bytes with the EOF rule, writes zero-fill gaps, O_APPEND lands at the end, a read-only handle never changes contents, a write-only handle never reads, rejected writes/truncates change nothing. "
+            "Checked every run: model = implementation and implementation = os.File on multi-handle histories including a structured coherence family.",
+            "Refuted (known finding): byte reads of a directory handle succeed with io.EOF. Not modelled: real os.File; it is the executable reference."),
+    "C03": ("Proved: every history of namespace operations (Mkdir, MkdirAll, OpenFile+Close, WriteFullFile, Remove, RemoveAll, Rename incl. directory trees, Chmod, Chtimes, Stat, ReadDir, ReadFile), successful or failed, keeps the model's store a well-formed tree (root directory, real-name keys, every parent a directory key); no bound on length or depth. "
+            "Checked every run: model = implementation; the invariant is evaluated on mem, keyvalue over a plain store, mount and Sub after every step over the closure of candidate paths.",
+            "Hypothesis of the theorem: no store failure. Mount and Sub compositions are covered by the invariant oracle only (two known findings). Writes through handles that outlive their path are C17's known finding."),
+    "C04": ("Proved: ValidPath specification; for every operation of the key-value model, the Sub view and the mount FS, an invalid name (either name for Rename) leaves the whole state unchanged and fails with ErrInvalid naming the caller's path; valid names are never refused as invalid. "
+            "Checked every run: model = implementation on 1.5k cases; 8k name x operation x layer cases (incl. os, cache, tar) against the gate's expected behaviour.",
+            "os, cache and tar layers are oracle-only."),
+    "C05": ("Proved: in every state (store failures included) each failure of Stat, Mkdir, Remove, Chmod, Chtimes and OpenFile of the key-value model is a PathError naming exactly the caller's path; on well-formed fault-free states the sentinel for each situation (invalid, exists, missing, below a file, not empty, root); Rename with an invalid name gives a LinkError with both names. "
+            "Checked every run: full error values model = implementation; type, path and sentinel implementation = os on every layer.",
+            "Not proved: Rename's other failures, MkdirAll/RemoveAll, and the composition layers. Two known findings (precedence; ancestor named by RemoveAll)."),
+    "C06": ("Proved over the mount model: routing is independent of the table's iteration order, selects the longest whole-element prefix, never confuses look-alike prefixes; only the routed constituent changes and the result is the direct one; AddMount succeeds at most/exactly once per point. "
+            "Checked every run: routes of all candidate paths and operation histories model = implementation; per-constituent snapshots against a flat reference.",
+            "Cross-mount Rename's error class and the covered directory's mode in listings are not constrained (see DESIGN.md 0.6). Concurrency of AddMount is exercised, not proved."),
+    "C07": ("Proved over the Sub model: a view addresses base joined with the name, which is the base or below it and valid; invalid names change nothing; each operation is the parent's operation at the joined name with error paths translated back. "
+            "Checked every run: view vs parent on identical copies for mem, mount (inside and above a mount point), os and an Open-only FS; model = implementation.",
+            "Refuted (known findings): Rename through the generic view is ErrNotImplemented; Sub(mountFS, dir) above a mount point hides the mount."),
+    "C08": ("Proved over the helper model: single-dispatch helpers equal the full-interface helper or fail with ErrNotImplemented changing nothing; with all interfaces the helper is the native method; both MkdirAll paths refuse invalid names identically; the MkdirAll fallback returns nil only if every primitive succeeded or met an existing directory, and returns the first other primitive error; RemoveAll swallows only ErrNotExist. "
+            "Checked every run: 2500 (helper x 36 capability masks x state x injected primitive failure) cases against the full-capability FS; model = implementation on 450.",
+            "Equality of fallback and optimised path for Stat, MkdirAll, RemoveAll, Chmod is checked, not proved."),
+    "C09": ("Proved for every separator/volume convention: every chain of Sub calls yields an empty or valid root; the OS path is volume + separator + (root joined with name); it stays inside the root; invalid names and names containing a non-'/' separator are refused; FromOSPath inverts ToOSPath, returns only valid FS paths, refuses other volumes, paths outside the root and look-alike prefixes. "
+            "Checked every run: 5k ToOSPath/FromOSPath/Sub cases model = implementation through the build-tagged shims for Unix and Windows conventions.",
+            "filepath.VolumeName is an input of the model. Error-path rewriting of os/fs.go is exercised on the real OS only."),
+    "C10": ("Proved over the cache model: the cache store holds only complete copies, Open serves the source's bytes, a successful open settles the entry, settled entries are never re-read and stay settled. "
+            "Checked every run: access sequences cache vs source (bytes, stat, listings, re-read counts); model = implementation.",
+            "Real parallelism of the path lock is exercised by C11's scheduler, not proved."),
+    "C11": ("Proved over the fill state machine: a partial copy is never served, an interrupted fill reports an error, a failed fill leaves nothing servable. "
+            "Checked every run: failures injected at every source/store call and two openers interleaved at every yield point.",
+            "The path lock itself is Go's sync primitives (trusted)."),
+    "C12": ("Proved: for every well-formed archive (distinct resolved names, no file above another entry) the unpacking algorithm builds exactly the logical tree -- each entry, each ancestor as a 0700 directory, nothing else -- in every entry order; names normalise to the root, a real-name path, or an escaping path; an entry whose parent escapes stops unpacking and creates nothing. "
+            "Checked every run: both models = implementation on generated archives; unpacked tree vs logical tree on four destinations incl. os.FS, sizes across the 150 KiB threshold.",
+            "Not modelled: goroutine schedule of the background writers, buffer pools (harness only)."),
+    "C13": ("Proved over the pubsub/Open protocol model: a wait is released by emit or cancel and by nothing else and stays released; a successful Open returns a complete entry; failures close; no opener stays stuck; reader completion precedes cancellation handling. "
+            "Checked every run: scripted pubsub schedules with real goroutines; streamed archives with stalls, truncation, read errors, cancellation and failing destinations with 1..8 openers.",
+            "Go's scheduler and context package are trusted."),
+    "C14": ("Proved: when the single failing store call fires inside Mkdir, Remove, Chmod or Chtimes the operation returns an error and every record is unchanged; a rejected Set is reported; a failed Get is never mistaken for not-exist; the fault fires at most once; the model has no panic outcome. "
+            "Checked every run: every history x every fault index, plain and transaction store: model = implementation; success despite a failed call only if result and store equal the failure-free ones; view = store afterwards.",
+            "Not proved for OpenFile, WriteFile, Rename, MkdirAll, RemoveAll and handle operations (the code ignores failures of look-ups it did not need there)."),
+    "C15": ("Proved over the interleaving model of Mkdir/Remove/Stat: linearizability is REFUTED (two witnesses, matching the known findings); unrelated programs commute; single-transaction operations are linearizable; transactions are exclusive and released. "
+            "Checked every run: all interleavings at store-transaction granularity of small programs vs all sequential orders; anomalies are minimised and identified by the shape of the minimal witness.",
+            "Partial: the property as stated does not hold of the code (three known findings). Data races under free-running goroutines are not explored by this check."),
+    "C16": ("Proved: paging with any positive counts partitions the listing; mixed counts (non-positive = the rest) deliver every child once and reach the end; never an empty page with nil error; EOF iff exhausted; the handle's ReadDir is that pager; listing by name is sorted and a permutation. "
+            "Checked every run: 800 (directory x page sequence) cases on mem, kv, mount, Sub, cache, tar, os; model = implementation.",
+            "Layers other than the key-value handle are oracle-only."),
+    "C17": ("Proved: every operation on a closed handle fails with ErrClosed and changes nothing; handles are independent; close then closed. "
+            "Checked every run: histories mixing namespace changes with open handles: model = implementation, implementation = os.File.",
+            "Refuted (known finding): a write/truncate/chmod through a handle whose path was removed or replaced resurrects or clobbers the name."),
+    "C18": ("Proved over the transaction model: one result per call in call order; Get sees the store and earlier Sets of the transaction; a handler's error becomes the operation's error; nothing after Abort has an effect; the in-memory store's mutex is released exactly once; the serial fallback leaves the store usable. "
+            "Checked every run: 3000 transaction scripts model = implementation (mem store through the build-tagged constructor, and the serial fallback).",
+            ""),
+    "C19": ("Proved: blob.Bytes operations never panic or self-deadlock; reachable blobs are well-formed; out-of-range arguments give an error and change nothing, in-range are accepted; Len/Bytes/View/Slice/Set/Grow/Truncate are the list operations; views write through. "
+            "Checked every run: 1500 operation sequences over view trees model = implementation.",
+            "idbblob (js/wasm) is not built or exercised in this sandbox."),
+    "C20": ("Proved over the model of fstest's tree comparison: with the default mask mode bits are invisible and extra entries are accepted (the known findings as theorems); a kept mode bit is checked; missing entries, wrong sizes and wrong kinds are rejected; the expected tree is accepted. "
+            "Checked every run: the real suite in a child process against mem, os and 58 single-deviation wrappers; assertion layer model = implementation.",
+            "Partial: three classes of deviants are accepted by the suite (known findings)."),
+}
+for _pid, (_t, _n) in LEVELS.items():
+    PROPS[_pid]["level_text"] = _t
+    PROPS[_pid]["level_note"] = (_n + _COMMON_NOTE).strip()
